@@ -136,6 +136,8 @@ EDITS = {
         ("hp06", RT + "vm/heap.rs", "        obj.refcount == 0\n    } else {", "        obj.refcount <= 1\n    } else {", "both", "heap"),
     ],
     "C11": [
+        ("fx01", "crates/lib/mimium-lang/src/runtime/vm_ffi.rs", "    machine.execute(closure.fn_proto_pos, Some(closure_idx));\n    machine.drop_closure(closure_idx);", "    machine.execute(closure.fn_proto_pos, Some(closure_idx));", "verus", "dsp_tick"),
+        ("fx02", "crates/lib/mimium-lang/src/runtime/vm_ffi.rs", "    machine.drop_closure(closure_idx);\n    0\n}", "    machine.drop_closure(closure_idx);\n    machine.drop_closure(closure_idx);\n    0\n}", "verus", "dsp_tick"),
         ("dt01", "crates/lib/plugins/mimium-audiodriver/src/driver.rs", "        self.sys_plugin_workers.iter_mut().for_each(\n            |plug: &mut Box<dyn SystemPluginAudioWorker>| {\n                let _ = plug.on_sample(time, &mut self.vm);\n            },\n        );\n        let rc = self.vm.execute_idx(self.dsp_i);\n", "        let rc = self.vm.execute_idx(self.dsp_i);\n        self.sys_plugin_workers.iter_mut().for_each(\n            |plug: &mut Box<dyn SystemPluginAudioWorker>| {\n                let _ = plug.on_sample(time, &mut self.vm);\n            },\n        );\n", "verus", "dsp_tick"),
         ("dt02", "crates/lib/mimium-lang/src/runtime/wasm/engine.rs", "            worker.on_sample(time, &mut self.engine);", "            worker.on_sample(Time(time.0 + 1), &mut self.engine);", "verus", "dsp_tick"),
         ("dt03", "crates/lib/plugins/mimium-audiodriver/src/backends/local_buffer.rs", "            self.count.store(now + 1, Ordering::Relaxed);", "            self.count.store(now + 2, Ordering::Relaxed);", "verus", "dsp_tick"),
